@@ -11,8 +11,13 @@ import sys
 import time
 
 ROOT = os.path.dirname(os.path.dirname(os.path.abspath(__file__)))
-EVID = os.path.join(ROOT, "evidence")
-REPLAYS = os.path.join(ROOT, "replays")
+# VERIF_OUT (development only, set by tools/try_seed_copy.sh): write evidence and replays of a run against a scratch
+# copy somewhere else, so that /verif/evidence only ever describes runs against /repo itself
+_OUT = os.environ.get("VERIF_OUT") or ROOT
+EVID = os.path.join(_OUT, "evidence")
+REPLAYS = os.path.join(_OUT, "replays")
+for _d in (EVID, REPLAYS):
+    os.makedirs(_d, exist_ok=True)
 KNOWN = os.path.join(ROOT, "known_findings.json")
 
 
